@@ -485,8 +485,11 @@ def make_kinds(rng):
         float_prop("crop_bottom", "_BasePicture.crop_bottom", -1.0, 1.0, rng, Fraction(1, 100000), extra_valid=[0.5], extra_invalid=[30000.0]),
         enum_prop("auto_shape_type", None, MSO_SHAPE, nullable=False, cls="Picture"),
     ], nv=True))
-    K.append(Kind("connector", b_connector, sh0, lambda o: o._element, shape_props("sp", rng) + [
-        int_prop(a, None, 0, 10**7, rng, cls="Connector", length=False, group="conn", unjudged=[-1, 10**7 + 1, 10**7 + 10**9, -10**6, 1.5])
+    conn = shape_props("sp", rng)
+    for q in conn[:4]:
+        q.group = "geometry"         # begin/end points are another view of the same a:off / a:ext / flip
+    K.append(Kind("connector", b_connector, sh0, lambda o: o._element, conn + [
+        P(a, None, [0, 1, 914400, 10**7, Emu(123456), 5000000], ["abc", None], [-1, -10**6, 1.5], cls="Connector", group="geometry")
         for a in ("begin_x", "begin_y", "end_x", "end_y")], nv=True))
     K.append(Kind("graphicframe", b_table, sh0, lambda o: o._element, shape_props("gf", rng), nv=True))
     K.append(Kind("group", b_group, sh0, lambda o: o._element, shape_props("grp", rng), nv=True))
@@ -637,7 +640,7 @@ def make_kinds(rng):
     ], opaque=("c:dLbls",), part=chart_part))
     K.append(Kind("bubble_plot", b_bubble, lambda prs: chart0(prs).plots[0], lambda o: o._element, [
         int_prop("bubble_scale", "BubblePlot.bubble_scale", 0, 300, rng, none=("reads", 100), length=False),
-        truthy_prop("vary_by_categories", "_BasePlot.vary_by_categories"),
+        truthy_prop("vary_by_categories", None, cls="_BasePlot"),      # c:bubbleChart does not declare c:varyColors: oracle only here
     ], part=chart_part))
     K.append(Kind("bar_series", b_bar, lambda prs: chart0(prs).plots[0].series[0], lambda o: o._element, [
         truthy_prop("invert_if_negative", "BarSeries.invert_if_negative")], part=chart_part))
@@ -768,7 +771,7 @@ def oracle_trial(ck, kind, p, v, verdict, reopen, stats, where="fresh", prs=None
         if after_xml != before_xml:
             after = {q.attr: getp(obj, q.attr) for q in kind.props}
             changed = [a for a in after if not eq_reading(after[a], before[a])]
-            ck.violation("reject-mutates:%s" % p.name,
+            ck.violation(("reject-mutates:%s" if changed else "reject-residue:%s") % p.name,
                          "%s = %r raises %s but the XML of the part has changed (readings changed: %s)" % (
                              p.name, v, res[2], ", ".join("%s %s -> %s" % (a, reading_repr(before[a]), reading_repr(after[a])) for a in changed) or "none"),
                          dict(rec, impl_outcome=res[2], readings_changed=changed))
